@@ -443,71 +443,54 @@ func genGuards(c *ctx) {
 	// Direct oracle, independent of the model: every size the buffer takes is positive and not above
 	// the larger of the initial size, the announced limit and 1 GiB, and newSendDataWriter's make
 	// does not panic on the final size.
-	doBufEvo := func(maxbuf int64, lens, times []int64) {
-		ages := make([]int64, len(times))
-		for i, t := range times {
-			switch {
-			case t == 0:
-				ages[i] = 0
-			case t == 1:
-				ages[i] = 1100
-			default:
-				ages[i] = t*1000 + 350
-			}
+	// The cases are collected first and run in a CHILD of the harness: the goroutine under test has no
+	// recover, so an arithmetic fault in it (a chunk time that makes a divisor zero) ends the process -
+	// the child reports which case it was running, and that case is the replay.
+	type evoCase struct {
+		maxbuf   int64
+		lens, ms []int64
+	}
+	var evoCases []evoCase
+	doBufEvo := func(maxbuf int64, lens, ms []int64) { evoCases = append(evoCases, evoCase{maxbuf, lens, ms}) }
+	fmtList := func(v []int64) string {
+		if len(v) == 0 {
+			return "-"
 		}
-		used, sizes, makePanic, e := trzsz.VerifBufsizeEvolution(maxbuf, lens, ages)
-		fmtList := func(v []int64) string {
-			if len(v) == 0 {
-				return "-"
-			}
-			p := make([]string, len(v))
-			for i, x := range v {
-				p[i] = strconv.FormatInt(x, 10)
-			}
-			return strings.Join(p, ",")
+		p := make([]string, len(v))
+		for i, x := range v {
+			p[i] = strconv.FormatInt(x, 10)
 		}
-		// one key per announced limit: the sequences that expose it are in the detail
-		key := strconv.FormatInt(maxbuf, 10)
-		if e != "" {
-			c.violate("bufsize-evolution-failed:"+key, "pipelineRecvAck did not get through a sequence of well-formed acknowledgements", e)
-			return
-		}
-		hi := int64(10240)
-		if maxbuf > hi {
-			hi = maxbuf
-		}
-		if hi > 1<<30 {
-			hi = 1 << 30
-		}
-		for _, sz := range sizes {
-			if sz < 1 || sz > hi {
-				c.violate("bufsize-capacity:"+key, fmt.Sprintf("the sender's chunk buffer size became %d for an announced limit of %d (it must stay within 1..%d)", sz, maxbuf, hi),
-					fmt.Sprintf("announced bufsize=%d acknowledged lengths=%s chunk times(0 fast,1 mid,k slow s)=%s => sizes %s; make: %s", maxbuf, fmtList(used), fmtList(times), fmtList(sizes), makePanic))
-				break
-			}
-		}
-		if makePanic != "" {
-			c.violate("bufsize-capacity:"+key, "newSendDataWriter panicked on the buffer size reached: "+makePanic,
-				fmt.Sprintf("announced bufsize=%d acknowledged lengths=%s chunk times=%s => sizes %s", maxbuf, fmtList(used), fmtList(times), fmtList(sizes)))
-		}
-		c.count(fmt.Sprintf("bufevo:grew=%v", len(sizes) > 1 && sizes[len(sizes)-1] > sizes[0]))
-		c.emit(len(used) > 0, "c12_bufevo", fmtList(sizes), strconv.FormatInt(maxbuf, 10), fmtList(used), fmtList(times))
+		return strings.Join(p, ",")
 	}
 	evoLimits := []int64{math.MinInt64, -(1 << 62), -(1 << 31), -10240, -1, 0, 1, 1023, 1024, 5000, 10239, 10240, 10241, 20479, 20480, 20481, 30000, 40960, 81920,
 		10 << 20, 1 << 30, 1<<30 + 1, 1 << 31, 1 << 62, math.MaxInt64}
+	// chunk times in ms.  TIME is an input the peer controls (it decides when to acknowledge): every
+	// interval between the thresholds the code compares with (fast 500 ms, shrink 2 s) and between the
+	// whole seconds its divisor chunkTime/time.Second steps at; the values keep 20..100 ms away from a
+	// boundary because the goroutine measures time.Since itself (the boundaries 499/500/501,
+	// 999/1000/1001, 1999/2000/2001 ms themselves are swept on the model: C12_ack_step_total)
+	evoTimes := []int64{0, 250, 400, 520, 700, 900, 1020, 1500, 1900, 2020, 2800, 3020, 9020, 20020, 50020}
 	for _, mb := range evoLimits {
 		eff := mb
 		if eff > 1<<30 {
 			eff = 1 << 30 // what recvConfig makes of it
 		}
 		doBufEvo(eff, nil, nil)
-		doBufEvo(eff, []int64{-1}, []int64{0})                                // one full fast chunk: the growth guard
-		doBufEvo(eff, []int64{-1, -1, -1, -1}, []int64{0, 0, 0, 0})           // keeps doubling up to the limit
-		doBufEvo(eff, []int64{-1, -2, -1}, []int64{0, 0, 0})                  // a short chunk in between
-		doBufEvo(eff, []int64{-1, -1, -1}, []int64{0, 3, 0})                  // a slow chunk: shrinks
-		doBufEvo(eff, []int64{-1, -1, -1, -1, -1}, []int64{20, 20, 20, 0, 0}) // down to the floor and up again
-		doBufEvo(eff, []int64{-1, 7, -1}, []int64{1, 2, 0})
-		doBufEvo(eff, []int64{-1, -1, -1, -1, -1, -1, -1}, []int64{50, 50, 50, 50, 50, 0, 0}) // far below the floor if there were none
+		doBufEvo(eff, []int64{-1}, []int64{0})                                         // one full fast chunk: the growth guard
+		doBufEvo(eff, []int64{-1, -1, -1, -1}, []int64{0, 0, 0, 0})                    // keeps doubling up to the limit
+		doBufEvo(eff, []int64{-1, -2, -1}, []int64{0, 0, 0})                           // a short chunk in between
+		doBufEvo(eff, []int64{-1, -1, -1}, []int64{0, 3020, 0})                        // a slow chunk: shrinks
+		doBufEvo(eff, []int64{-1, -1, -1, -1, -1}, []int64{20020, 20020, 20020, 0, 0}) // down to the floor and up again
+		doBufEvo(eff, []int64{-1, 7, -1}, []int64{1020, 2020, 0})
+		doBufEvo(eff, []int64{-1, -1, -1, -1, -1, -1, -1}, []int64{50020, 50020, 50020, 50020, 50020, 0, 0}) // far below the floor if there were none
+	}
+	for _, mb := range []int64{-1, 0, 10240, 40960, 10 << 20} {
+		for _, t := range evoTimes {
+			for _, l := range []int64{-1, -2, 7, 20480} { // full, short, tiny, longer than the buffer
+				doBufEvo(mb, []int64{l}, []int64{t})
+				doBufEvo(mb, []int64{-1, l, -1}, []int64{0, t, t})
+			}
+		}
 	}
 	for i := 0; i < c.pick(40, 800); i++ {
 		mb := evoLimits[c.rng.Intn(len(evoLimits))]
@@ -518,12 +501,61 @@ func genGuards(c *ctx) {
 			mb = 1 << 30
 		}
 		k := 1 + c.rng.Intn(8)
-		lens, times := make([]int64, k), make([]int64, k)
+		lens, ms := make([]int64, k), make([]int64, k)
 		for j := range lens {
 			lens[j] = []int64{-1, -1, -1, -2, 0, 1, 10240, 1024, 20480}[c.rng.Intn(9)]
-			times[j] = []int64{0, 0, 0, 0, 1, 2, 3, 9, 50}[c.rng.Intn(9)]
+			ms[j] = evoTimes[c.rng.Intn(len(evoTimes))]
+			if c.rng.Intn(2) == 0 {
+				ms[j] = 0
+			}
 		}
-		doBufEvo(mb, lens, times)
+		doBufEvo(mb, lens, ms)
+	}
+	next := 0
+	for round := 0; next < len(evoCases) && round < 6; round++ {
+		batch := make([]c12EvoJob, 0, len(evoCases)-next)
+		for _, ec := range evoCases[next:] {
+			batch = append(batch, c12EvoJob{ec.maxbuf, ec.lens, ec.ms})
+		}
+		results, crashedAt, crashText := c12RunEvoChild(work, batch)
+		for i, r := range results {
+			ec := evoCases[next+i]
+			key := strconv.FormatInt(ec.maxbuf, 10) // one key per announced limit: the sequences are in the detail
+			if r.Err != "" {
+				c.violate("bufsize-evolution-failed:"+key, "pipelineRecvAck did not get through a sequence of well-formed acknowledgements", r.Err)
+				continue
+			}
+			hi := int64(10240)
+			if ec.maxbuf > hi {
+				hi = ec.maxbuf
+			}
+			if hi > 1<<30 {
+				hi = 1 << 30
+			}
+			for _, sz := range r.Sizes {
+				if sz < 1 || sz > hi {
+					c.violate("bufsize-capacity:"+key, fmt.Sprintf("the sender's chunk buffer size became %d for an announced limit of %d (it must stay within 1..%d)", sz, ec.maxbuf, hi),
+						fmt.Sprintf("announced bufsize=%d acknowledged lengths=%s chunk times(ms)=%s => sizes %s; make: %s", ec.maxbuf, fmtList(r.Used), fmtList(ec.ms), fmtList(r.Sizes), r.MakePanic))
+					break
+				}
+			}
+			if r.MakePanic != "" {
+				c.violate("bufsize-capacity:"+key, "newSendDataWriter panicked on the buffer size reached: "+r.MakePanic,
+					fmt.Sprintf("announced bufsize=%d acknowledged lengths=%s chunk times(ms)=%s => sizes %s", ec.maxbuf, fmtList(r.Used), fmtList(ec.ms), fmtList(r.Sizes)))
+			}
+			c.count(fmt.Sprintf("bufevo:grew=%v", len(r.Sizes) > 1 && r.Sizes[len(r.Sizes)-1] > r.Sizes[0]))
+			c.emit(len(r.Used) > 0, "c12_bufevo_ms", fmtList(r.Sizes), strconv.FormatInt(ec.maxbuf, 10), fmtList(r.Used), fmtList(ec.ms))
+		}
+		next += len(results)
+		if crashedAt >= 0 && next < len(evoCases) {
+			ec := evoCases[next]
+			c.violate(fmt.Sprintf("bufsize-time-crash:%s", fmtList(ec.ms)), "the acknowledgement goroutine of the sender crashed the process: "+crashText,
+				fmt.Sprintf("announced bufsize=%d acknowledged lengths(-1 = the whole buffer, -2 = half)=%s chunk times(ms)=%s :: %s", ec.maxbuf, fmtList(ec.lens), fmtList(ec.ms), crashText))
+			c.count("bufevo:crash")
+			next++ // the remaining cases run in a fresh child
+		} else if crashedAt < 0 {
+			break
+		}
 	}
 
 	// ---- bar width ----
